@@ -185,7 +185,7 @@ def run_shard(ctx):
     snapshot = print_schema(schema)
     vocab = docmut.vocabulary(schema)
     rng = ctx.rng
-    for k in range(ctx.n(9000, 150000)):
+    for k in range(ctx.n(4500, 150000)):
         mode = rng.random()
         if mode < 0.25:
             g = DocGen(schema, rng, ops=('query', 'mutation', 'subscription'), p_defer=0.1, p_stream=0.1)
